@@ -170,22 +170,10 @@ Ltac start a3 a2 a1 a0 p q Ha :=
   canon_rabs q ltac:(unfold q, dq; field; nz);
   canon_rabs (disc p q) ltac:(unfold disc, p, q, dp, dq; field; nz).
 
-Lemma three_real_roots a3 a2 a1 a0 : tol <= Rabs a3 -> tol <= Rabs (dp a3 a2 a1) -> tol <= Rabs (dq a3 a2 a1 a0) ->
-  tol <= disc (dp a3 a2 a1) (dq a3 a2 a1 a0) ->
-  exists x1 x2 x3, result (find_roots_gen a3 a2 a1 a0) 3 x1 x2 x3 /\ three_roots a3 a2 a1 a0 x1 x2 x3.
-Proof.
-  intros H3 Hp Hq Hd. start a3 a2 a1 a0 p q Ha.
-  canon_lt0 (disc p q) ltac:(unfold disc, p, q, dp, dq; field; nz).
-  pose proof (Rle_abs (disc p q)) as Habs. unfold tol in *.
-  repeat (split_test; try (exfalso; lra)).
-  do 3 eexists; split; [reflexivity|].
-  intro y. rewrite depress by assumption. fold p q.
-  assert (Hd' : 0 < disc p q) by (assert (0 < / 10 ^ 300) by (apply Rinv_0_lt_compat; apply pow_lt; lra); lra).
-  rewrite (trig_roots p q Hd'). cbv zeta.
-  canon_sqrt (disc p q) ltac:(unfold disc, p, q, dp, dq; field; nz).
-  canon_atan2 (T2c p q) (Tc q) ltac:(unfold T2c, Tc, q, dq; field; nz).
-  canon_sqrt (Tc q * Tc q + T2c p q * T2c p q) ltac:(unfold T2c, Tc, q, dq; field; nz).
-  canon_cos (Ratan2 (T2c p q) (Tc q) / 3) ltac:(field).
-  canon_sin (Ratan2 (T2c p q) (Tc q) / 3) ltac:(field).
-  unfold sh. field. nz.
-Qed.
+
+Lemma tol_pos : 0 < / 10 ^ 300.
+Proof. apply Rinv_0_lt_compat; apply pow_lt; lra. Qed.
+Ltac abs_cases x := destruct (Rcase_abs x) as [?|?];
+  [rewrite (Rabs_left x) in * by assumption | rewrite (Rabs_right x) in * by assumption].
+Ltac canonY p q c := match goal with |- context [D p q ?Y] => replace Y with c by (unfold sh; field; nz) end.
+Ltac split_test_in H := match type of H with context [if ?c then _ else _] => destruct c end.
